@@ -21,13 +21,16 @@ Definition jres (r : wres) : jv :=
 Inductive wop :=
 | OpWait (t : option Q)      (* Process.wait(t) on the one Process object *)
 | OpRaw (t : option Q)       (* _psposix.wait_pid(pid, t) directly (no object, no cache) *)
-| OpAdvance (dt : Q).        (* the caller lets dt seconds pass *)
+| OpAdvance (dt : Q)         (* the caller lets dt seconds pass *)
+| OpOther.                  (* any other public call on the object (is_running, kill, children, name ...):
+                               none of them touches _exitcode, so it is a no-op on the modelled object *)
 
 (* one observation per op: result, return instant, sleeps, waitpid calls so far, spec verdicts *)
 Fixpoint run_ops (p : proc) (fuel : nat) (ops : list wop) (o : pobj) (t : Q) : list jv :=
   match ops with
   | [] => []
   | OpAdvance dt :: r => run_ops p fuel r o (t + dt)
+  | OpOther :: r => run_ops p fuel r o t
   | OpWait tm :: r =>
     let '(res, o', t', sl) := process_wait (k_waitpid p) (k_exists p) (p_pid p) o tm fuel t in
     let ob := {| o_res := res; o_ret := t'; o_sleeps := sl |} in
